@@ -20,6 +20,25 @@ def _lib():
     return F, M
 
 
+EQUAL_NONDYADIC = [0.1, 0.3, 0.7, 1 / 3, 0.9, 1e-3, 7.3, 1e4 + 0.1]
+
+
+@st.composite
+def _costs(draw):
+    """The shared cost classes, plus (1 case in 8) one cost for all three operations that no float represents exactly:
+    the target sets are those of unit costs (scaling all costs by one factor changes no comparison), however sums of
+    the cost round."""
+    if draw(st.integers(0, 7)) == 0:
+        c = draw(st.sampled_from(EQUAL_NONDYADIC))
+        return [c, c, c]
+    return draw(G.dyadic_costs(force_ties=True))
+
+
+def _oc(costs):
+    """Costs for the oracle: equal costs are replaced by unit costs (same targets, exact arithmetic)."""
+    return [1.0, 1.0, 1.0] if costs[0] == costs[1] == costs[2] else costs
+
+
 @st.composite
 def _oc_case(draw, tier, tiny=False):
     if tiny:
@@ -28,7 +47,7 @@ def _oc_case(draw, tier, tiny=False):
         b = draw(G.batch(tier, max_n=4, max_len=6 if tier == "quick" else 10, max_alpha=3))
     return {
         "b": b,
-        "costs": draw(G.dyadic_costs(force_ties=True)),
+        "costs": draw(_costs()),
         "include_eos": draw(st.booleans()),
         "batch_first": draw(st.booleans()),
         "exclude_last": draw(st.booleans()),
@@ -64,6 +83,8 @@ def _oc_check(case, brute):
     rl, hl = G.lens_of(b, case["include_eos"])
     pad = case["padding"]
     cl = G.common_classes(b, rl, hl, case["costs"])
+    if case["costs"][0] in EQUAL_NONDYADIC and _oc(case["costs"]) != case["costs"]:
+        cl.append("costs_equal_inexact")
     multi = repeated = past_end = empty_set = excluded = False
     alphabet = sorted(set(range(-2, b["A"] + 3)))
     for n in range(N):
@@ -81,10 +102,10 @@ def _oc_check(case, brute):
                 require(real == [], "prefix past the hypothesis's end has targets (pair %d prefix %d)" % (n, k), slot, "all padding")
                 continue
             require(len(set(real)) == len(real), "a target listed twice (pair %d prefix %d)" % (n, k), slot, None)
-            exp = O.oc_targets_dp(r, h[:k], *case["costs"])
+            exp = O.oc_targets_dp(r, h[:k], *_oc(case["costs"]))
             if brute:
                 alpha = sorted(set(r) | set(h) | {max(list(r) + list(h) + [0]) + 1})
-                exp_b = O.oc_targets_bruteforce(r, h[:k], alpha, *case["costs"])
+                exp_b = O.oc_targets_bruteforce(r, h[:k], alpha, *_oc(case["costs"]))
                 require(exp_b == exp, "harness: DP lemma disagrees with the definitional enumeration", exp, exp_b, kind="harness")
             require(sorted(real) == exp, "targets of pair %d prefix %d (ref=%s prefix=%s costs=%s)" % (n, k, r, h[:k], case["costs"]),
                     sorted(real), exp)
@@ -112,7 +133,7 @@ def _oc_check(case, brute):
 
 @subcheck("C03", "targets_vs_dp", lambda tier: _oc_case(tier), 2000, 50000,
           doc="optimal_completion (function/module) vs {ref[j]: D[j][|p|] minimal over j<=r} from the scalar DP; set equality, once each, padding only after, padding past the hypothesis",
-          required_classes=["multi_target", "repeated_token_target", "past_end", "empty_target_set", "costs_unequal", "exclude_last"])
+          required_classes=["multi_target", "repeated_token_target", "past_end", "empty_target_set", "costs_unequal", "costs_equal_inexact", "exclude_last"])
 def _targets_vs_dp(case):
     return _oc_check(case, brute=False)
 
@@ -168,7 +189,7 @@ def _loss_case(draw, tier):
         "V": V,
         "logits": [[_saturate(draw, [draw(_LOGIT) for _ in range(V)]) for _ in range(H)] for _ in range(N)],
         "weight": [draw(st.integers(1, 8)) / 4 for _ in range(V)] if use_w else None,
-        "costs": draw(G.dyadic_costs(force_ties=True)),
+        "costs": draw(_costs()),
         "include_eos": include_eos,
         "batch_first": draw(st.booleans()),
         "reduction": draw(st.sampled_from(["none", "sum", "mean", "mean"])),
@@ -209,7 +230,7 @@ def _ocd_loss(case):
     for n in range(N):
         r, h = b["refs"][n][: rl[n]], b["hyps"][n][: hl[n]]
         for k in range(min(H, len(h))):
-            S = O.oc_targets_dp(r, h[:k], ins, dele, sub)
+            S = O.oc_targets_dp(r, h[:k], *_oc(case["costs"]))
             if not S:
                 empty_set = True
                 continue
@@ -331,7 +352,7 @@ def _independence(case):
 def _long_case(draw, tier):
     return {
         "b": draw(G.long_batch(tier, max_n=2)),
-        "costs": draw(G.dyadic_costs(force_ties=True)),
+        "costs": draw(_costs()),
         "include_eos": draw(st.booleans()),
         "batch_first": draw(st.booleans()),
         "exclude_last": draw(st.booleans()),
@@ -356,7 +377,7 @@ def _long_pairs(case):
 def _eos_wide_case(draw, tier):
     return {
         "b": draw(G.eos_padded_wide_batch(tier, max_n=2)),
-        "costs": draw(G.dyadic_costs(force_ties=True)),
+        "costs": draw(_costs()),
         "include_eos": draw(st.booleans()), "batch_first": draw(st.booleans()), "exclude_last": draw(st.booleans()),
         "padding": -100, "entry": "function", "layout": "contiguous",
     }
